@@ -219,6 +219,7 @@ def core_phase(ctx, n):
                                 {"core", "agg", "enums", "match", "loops", "assign", "impure"}][i % 12], depth=4) for i in range(n)]
     impl = common.run_lines_guarded(common.GVH, [impl_case(c, "ssa", True) for c in cases], per_case_timeout=20.0)
     bit, _, _ = ctx.run_model([dict(model_case(c), op="bit_eval") for c in cases], timeout=3000)
+    src, _, _ = ctx.run_model([model_case(c) for c in cases], timeout=3000)
     tally = {"value": 0, "panic": 0, "outside": 0}
     for c in cases:
         r, m = impl.get(c["id"]), bit.get(c["id"])
@@ -230,7 +231,7 @@ def core_phase(ctx, n):
             tally["outside"] += 1
             fs.append(Failure("model", "c01:core:generator-left-the-fragment", "the generator's core mode produced a program that Bit.bitStmts does not cover", sub, None, None))
             continue
-        for a, out, mm in zip(c["args"], r["outs"], m["results"]):
+        for k, (a, out, mm) in enumerate(zip(c["args"], r["outs"], m["results"])):
             one = dict(sub, args=[gen_prog.val_json(t, v) for (_, t), v in zip(c["params"], a)])
             if "outside" in mm:
                 tally["outside"] += 1
@@ -246,6 +247,14 @@ def core_phase(ctx, n):
                 tally["value"] += 1
                 ok = flag == "0" and value == mm["bits"]
             if not ok:
+                # the model equals the source semantics on the fragment (C01_core): if the circuit differs from the source
+                # semantics too, this input is a failing input of the property itself
+                ms = ((src.get(c["id"]) or {}).get("results") or [None] * (k + 1))[k] or {}
+                if "panic" in ms or "bits" in ms:
+                    ok_src = (flag == "1" and reason == PANIC_CODES[ms["panic"]]) if "panic" in ms else (flag == "0" and value == ms["bits"])
+                    if not ok_src:
+                        fs.append(Failure("oracle", "c01:core:circuit-differs-from-source-semantics", "the circuit disagrees with the source semantics and with the bit-level model of compile.rs (Bit.bitStmts), which agree with each other", one, ms, out[:40] + "…" + value))
+                        break
                 fs.append(Failure("model", "c01:core:bit-level-model-differs", "the circuit and the bit-level model of compile.rs (Bit.bitStmts) disagree", one, mm, out[:40] + "…" + value))
                 break
     return fs, tally
